@@ -12,11 +12,20 @@ pub enum ZErr {
 
 thread_local! {
     static CALLS: std::cell::Cell<usize> = const { std::cell::Cell::new(0) };
+    /// lowest / highest address of a local of `called` seen since the last reset (frame model, C06)
+    static ADDRS: std::cell::Cell<(usize, usize)> = const { std::cell::Cell::new((usize::MAX, 0)) };
 }
 
 /// every zoo callback announces itself: mode "c" prints how often callbacks ran during the lexing
+#[inline(never)]
 pub fn called() {
     CALLS.with(|c| c.set(c.get() + 1));
+    let probe = 0u8;
+    let a = std::hint::black_box(&probe) as *const u8 as usize;
+    ADDRS.with(|c| {
+        let (lo, hi) = c.get();
+        c.set((lo.min(a), hi.max(a)));
+    });
 }
 
 fn calls_reset() {
@@ -247,14 +256,20 @@ where
     let n = (total / unit.len().max(1)).max(1);
     let big: String = unit.repeat(n);
     let h = std::thread::Builder::new()
-        .stack_size(64 * 1024)
+        .stack_size(if total > (1 << 16) { 64 * 1024 } else { 8 << 20 })
         .spawn(move || {
+            calls_reset();
             let mut lex = Lexer::<T>::new(&big);
             let mut count = 0usize;
+            ADDRS.with(|c| c.set((usize::MAX, 0)));
             while let Some(_) = lex.next() {
                 count += 1;
             }
-            format!("count={} end={} len={}", count, lex.span().end, big.len())
+            // distance between the deepest and the shallowest callback invocation: with a constant number of
+            // frames between the loop above and a callback it is 0 for a definition with one kind of callback
+            let (lo, hi) = ADDRS.with(|c| c.get());
+            let spread = if hi >= lo { hi - lo } else { 0 };
+            format!("count={} end={} len={} spread={} calls={}", count, lex.span().end, big.len(), spread, CALLS.with(|c| c.get()))
         })
         .unwrap();
     h.join().unwrap_or_else(|_| "THREADPANIC".into())
